@@ -979,8 +979,29 @@ impl Ctx {
         S: EventSource + 'static,
         F: FnMut(S::Event, &mut S::Metadata, &mut Ctx) -> S::Ret + 'static,
     {
+        self.insert_any_mode(id, source, cb, via_disp, false)
+    }
+
+    /// `moved`: register_dispatcher is given the caller's only handle
+    fn insert_any_mode<S, F>(&mut self, id: SrcId, source: S, cb: F, via_disp: bool, moved: bool) -> Result<(RegistrationToken, Option<Dispatcher<'static, S, Ctx>>), (Res, Option<bool>)>
+    where
+        S: EventSource + 'static,
+        F: FnMut(S::Event, &mut S::Metadata, &mut Ctx) -> S::Ret + 'static,
+    {
         self.sh.push(Ev::Op(ROp::Insert { src: id, via_disp }));
         let h = self.h();
+        if via_disp && moved {
+            let d = Dispatcher::new(source, cb);
+            return match catch_unwind(AssertUnwindSafe(|| h.register_dispatcher(d))) {
+                Ok(Ok(tok)) => Ok((tok, None)),
+                // the caller gave its only handle away: nothing to hand back
+                Ok(Err(e)) => Err((res_of::<()>(&Err(e)), Some(true))),
+                Err(p) => {
+                    self.poisoned = true;
+                    Err((panic_res(p), None))
+                }
+            };
+        }
         if via_disp {
             let d = Dispatcher::new(source, cb);
             let d2 = d.clone();
@@ -1897,7 +1918,7 @@ impl Ctx {
                 while kernel::raw_read(own.0, &mut buf) > 0 {}
                 sh.push(Ev::OpRes(Res::Ok));
             }
-            Op::InsertBad { which } => {
+            Op::InsertBad { which, mode, give } => {
                 if self.srcs.len() >= 48 {
                     return;
                 }
@@ -1924,15 +1945,26 @@ impl Ctx {
                 let id = self.new_src(&kind, &[], K_GEN_BAD);
                 sh.push(Ev::Created { src: id, info: KInfo { kind: kind.clone(), fd: raw, deadline_ns: None, recycled_from: None, children: vec![] } });
                 let alive = self.srcs[id].alive.clone();
+                if *give {
+                    // the closure of the source about to be rejected owns a live adapter (dropped wherever calloop drops it)
+                    if let Some(i) = self.asyncs.iter().position(|a| a.adapter.is_some()) {
+                        let ad = self.asyncs[i].adapter.take().unwrap();
+                        sh.push(Ev::Op(ROp::AsyncGive { a: i, src: id }));
+                        self.asyncs[i].given_to = Some(id);
+                        sh.bags.borrow_mut().entry(id).or_default().push(Box::new(ad));
+                        sh.push(Ev::OpRes(Res::Ok));
+                    }
+                }
                 let g = Generic::new(BorrowedRaw(raw), Interest::READ, Mode::Level);
                 let t = Tracked::new(g, id, &sh, &alive);
                 let cg = CbGuard { id, sh: sh.clone() };
-                let r = self.insert_any(id, t, move |_rd: Readiness, _fd: &mut calloop::generic::NoIoDrop<BorrowedRaw>, ctx: &mut Ctx| {
+                let mode = *mode % 3;
+                let r = self.insert_any_mode(id, t, move |_rd: Readiness, _fd: &mut calloop::generic::NoIoDrop<BorrowedRaw>, ctx: &mut Ctx| {
                     let _ = &cg;
                     ctx.on_cb(id, Payload::Ready { r: true, w: false, e: false, now_r: false, now_w: false, now_h: false });
                     Ok(PostAction::Continue)
-                }, false);
-                let _ = self.record_insert(id, false, false, r);
+                }, mode != 0, mode == 2);
+                let _ = self.record_insert(id, mode != 0, false, r);
             }
             Op::Dispatch { .. } => {}
         }
